@@ -1,0 +1,12 @@
+//go:build verif
+
+package router
+
+// Contracts for govc (see /verif/DESIGN.md). Comments only; compiled only with -tags verif.
+
+//@ spec
+//@ pred segPrefix(route string, req string) := route != "" && (route == "/" || req == route || prefixof(route + "/", req))
+
+//@ func MatchPath
+//@   strings theory
+//@   ensures [C10:iff_segprefix] result <==> segPrefix(routePath, requestPath)
